@@ -587,13 +587,26 @@ def run_case(c, rng):
         return do('add_control(%r) requiring %s' % (name, sorted(req)), lambda: wn.add_control(name, obj), 'ok',
                   lambda: sh.controls.__setitem__(name, set(req)), 'add_control')
 
-    def op_remove_node():
-        n = pick_node()
+    def op_strand_node():
+        # a node that keeps a non-link user (a source) and / or a control while all its links are taken away, then the attempt to
+        # remove it: the registry knows more kinds of user than the links
+        cand = [n for n in sh.nodes if sh.controls_requiring('N', n) or any(d['node'] == n for d in sh.sources.values())]
+        n = pick(cand) if cand and rng.random() < 0.8 else pick_node()
+        if n is None:
+            return
+        c.count('strand_node_sequences')
+        for ln in [l for l, d in sorted(sh.links.items()) if n in (d['start'], d['end'])][:5]:
+            if op_remove_link(ln, True) == 'abort' or c.violations:
+                return 'abort'
+        return op_remove_node(n, rng.random() < 0.8)
+
+    def op_remove_node(n=None, with_control=None):
+        n = pick_node() if n is None else n
         if n is None:
             return
         users = sh.node_users(n)
         ctrls = sh.controls_requiring('N', n)
-        with_control = rng.random() < 0.5
+        with_control = (rng.random() < 0.5) if with_control is None else with_control
         desc = 'remove_node(%r, with_control=%s) [users %s, controls %s]' % (n, with_control, users[:4], ctrls[:3])
         if users or (ctrls and not with_control):
             return do(desc, lambda: wn.remove_node(n, with_control=with_control), 'refuse', None, 'remove_refused')
@@ -605,12 +618,12 @@ def run_case(c, rng):
             c.count('removals_ok')
         return do(desc, lambda: wn.remove_node(n, with_control=with_control), 'ok', upd, 'remove_node')
 
-    def op_remove_link():
-        ln = pick(sh.links)
+    def op_remove_link(ln=None, with_control=None):
+        ln = pick(sh.links) if ln is None else ln
         if ln is None:
             return
         ctrls = sh.controls_requiring('L', ln)
-        with_control = rng.random() < 0.5
+        with_control = (rng.random() < 0.5) if with_control is None else with_control
         desc = 'remove_link(%r, with_control=%s) [%s %s, controls %s]' % (ln, with_control, sh.links[ln]['type'], sh.links[ln]['sub'], ctrls[:3])
         if ctrls and not with_control:
             return do(desc, lambda: wn.remove_link(ln, with_control=with_control), 'refuse', None, 'remove_refused')
@@ -827,7 +840,7 @@ def run_case(c, rng):
     table = [(op_add_junction, 8), (op_add_tank, 3), (op_add_reservoir, 3), (op_add_pipe, 10), (op_add_pump, 6), (op_add_valve, 6),
              (op_add_pattern, 5), (op_add_curve, 5), (op_add_source, 3), (op_add_control, 5), (op_remove_node, 9), (op_remove_link, 9),
              (op_remove_pattern, 5), (op_remove_curve, 5), (op_remove_source, 2), (op_remove_control, 3), (op_reassign_end, 8),
-             (op_reassign_ref, 9), (op_duplicate_add, 3), (op_missing_node_add, 2)]
+             (op_reassign_ref, 9), (op_duplicate_add, 3), (op_missing_node_add, 2), (op_strand_node, 3)]
     weights = [w for _, w in table]
     n_ops = rng.randint(10, 60) if c.tier == 'quick' else rng.randint(20, 120)
     if big:
